@@ -12,13 +12,13 @@ theorem testReqMsg_eq (env : Env) : testReqMsg env = testReqOut env := rfl
 def afterTestReq (c : Conn) (env : Env) : Conn :=
   { afterSend c env (testReqOut env) with testReqId := some env.secs }
 
-theorem testReqOut_ascii (env : Env) : asciiMsg (testReqOut env) = true := by
-  simp [asciiMsg, testReqOut, Msg.mk', asciiStr_pyStr]; decide
+theorem testReqOut_latin1 (env : Env) : latin1Msg (testReqOut env) = true := by
+  simp [latin1Msg, testReqOut, Msg.mk', latin1_pyStr]; decide
 
-theorem appTestReq_est {env : Env} {c : Conn} (h : Est c) (henv : asciiStr env.stamp = true) :
+theorem appTestReq_est {env : Env} {c : Conn} (h : Est c) (henv : isLatin1 env.stamp = true) :
     appTestReq env c = (afterTestReq c env, [.write (sentFrame c env (testReqOut env))]) := by
   have := sendTestReq_closed (env := env) h.st h.noreq
-    (frameLatin1_of_isAscii (sentFrame_ascii h.asciiS h.asciiT henv (testReqOut_ascii env)))
+    ((sentFrame_latin1 h.latinS h.latinT henv (testReqOut_latin1 env)))
     (jOut_spec env (testReqOut env) h.fresh) h.sock
   simp [appTestReq, M.run, this, afterTestReq, afterSend]
 
